@@ -303,6 +303,70 @@ def explore_e(n, via, shard_len=2):
     return sum(r[0] for r in res), sum(r[1] for r in res), tally, len(outcomes), [r[4] for r in res if r[4]][:3]
 
 
+# ------------------------------------------------------------------ ground truth for the reference scanner
+def gcc_validate(texts):
+    """gcc -E (without -P) keeps every surviving token on its physical line (linemarkers resynchronise), so the
+    set of lines holding code can be read back.  Judged: well-formed texts without directive lines and without a
+    backslash-newline inside a token (gcc prints a spliced token on its first line).  Returns (checked, disagreements)."""
+    import re
+    import subprocess
+    from ..core import gcc as G
+
+    if not G.available():
+        return 0, []
+    jobs = []
+    for t in texts:
+        r = cscan.RefScanner()
+        try:
+            for ln in cscan.split_lines(t):
+                r.feed(ln)
+            out = r.finish()
+        except cscan.IllFormed:
+            continue
+        if r.split_literal or any(c == "CPP_DIRECTIVE" for c, _ in out):
+            continue
+        if re.search(r"\S\\\n\S", t) or re.search(r"\\\n\Z", t):
+            continue
+        jobs.append((t, sorted(x for _, l in out for x in l)))
+    if not jobs:
+        return 0, []
+    src = []
+    starts = []
+    for t, _ in jobs:
+        starts.append(len(src) + 1)
+        body = t if t.endswith("\n") else t + "\n"
+        src.extend(body[:-1].split("\n"))
+        src.append("@@SEP@@")
+    p = subprocess.run([G.GCC, "-E", "-x", "c", "-"], input="\n".join(src) + "\n", capture_output=True, text=True)
+    if p.stderr.strip():
+        return 0, [("<batch>", "gcc diagnostics: " + p.stderr[:300])]
+    has = set()
+    cur = None
+    for ln in p.stdout.split("\n"):
+        m = re.match(r'^# (\d+) "([^"]*)"', ln)
+        if m:
+            cur = int(m.group(1)) if m.group(2) == "<stdin>" else None
+            continue
+        if cur is not None:
+            if ln.strip():
+                has.add(cur)
+            cur += 1
+    dis = []
+    for (t, exp), st in zip(jobs, starts):
+        n = len((t if t.endswith("\n") else t + "\n")[:-1].split("\n"))
+        got = sorted(x - st + 1 for x in has if st <= x < st + n)
+        if got != exp:
+            dis.append((t, f"reference {exp}, gcc {got}"))
+    return len(jobs), dis
+
+
+def _gcc_shard(arg):
+    prefix, n = arg
+    texts = [prefix + "".join(t) for k in range(0, n - len(prefix) + 1) for t in itertools.product(SIGMA_E, repeat=k)]
+    chk, dis = gcc_validate(texts)
+    return chk, len(dis), dis[:3]
+
+
 # ------------------------------------------------------------------ S explorer
 _alpha_cache = {}
 
@@ -489,6 +553,9 @@ def run(tier):
     ext = _e_shard((pref, e_len + 1, "c_file_source"))
     for t in (tl1, tl2, ext[2]):
         tally.merge(t)
+    gl = 5 if tier == "quick" else 6
+    gres = par.pmap(_gcc_shard, [("".join(p2), gl) for p2 in itertools.product(SIGMA_E, repeat=2)] + [(x, len(x)) for x in [""] + SIGMA_E])
+    gstat = {"texts_checked": sum(r[0] for r in gres), "disagreements": sum(r[1] for r in gres), "examples": [d for r in gres for d in r[2]][:5], "max_len": gl}
     uniq = sorted(set(tally.texts), key=lambda tv: (len(tv[0]), tv))
     fl = par.pmap(_mk, uniq, chunksize=4)
     rep.add([f for f in fl if f])
@@ -511,6 +578,7 @@ def run(tier):
         "S": {k: v for k, v in sinfo.items() if k != "samples"},
         "E_c_file_source": {"texts": t1, "well_formed": wf1, "max_len": e_len, "distinct_expected_outcomes": o1},
         "E_parse_file": {"texts": t2, "well_formed": wf2, "max_len": p_len, "distinct_expected_outcomes": o2},
+        "oracle_gcc": gstat,
         "E_extension": {"prefix": pref, "len": e_len + 1, "texts": ext[0], "well_formed": ext[1]},
         "samples": sinfo["samples"] + [{"text": s} for s in smp1[:2] + smp2[:1]],
         "exhaustive": bool(sinfo["frontier_empty"] and (rinfo is None or rinfo["frontier_empty"])),
